@@ -39,6 +39,13 @@ func trBaseIdent(e ast.Expr) *ast.Ident {
 			e = x.X
 		case *ast.StarExpr:
 			e = x.X
+		case *ast.CallExpr:
+			// dict.GetDefault(m, k, ctor)[k2] = v assigns to m
+			if sel, ok := x.Fun.(*ast.SelectorExpr); ok && sel.Sel.Name == "GetDefault" && len(x.Args) == 3 {
+				e = x.Args[0]
+				continue
+			}
+			return nil
 		default:
 			return nil
 		}
@@ -125,6 +132,25 @@ func isNilNode(n ast.Node) bool {
 		return x == nil
 	}
 	return false
+}
+
+// calledFunc: the function object a call refers to (nil for function values, builtins, conversions)
+func (c *trCtx) calledFunc(x *ast.CallExpr) *types.Func {
+	switch f := trUnparen(x.Fun).(type) {
+	case *ast.Ident:
+		fo, _ := c.info().Uses[f].(*types.Func)
+		return fo
+	case *ast.SelectorExpr:
+		if sel, ok := c.info().Selections[f]; ok {
+			fo, _ := sel.Obj().(*types.Func)
+			return fo
+		}
+		fo, _ := c.info().Uses[f.Sel].(*types.Func)
+		return fo
+	case *ast.IndexExpr: // explicit instantiation f[T](…)
+		return c.calledFunc(&ast.CallExpr{Fun: f.X})
+	}
+	return nil
 }
 
 // calleeOf: the translated function called by x (nil for prelude calls, builtins, conversions)
@@ -326,8 +352,8 @@ func (c *trCtx) stmt(s ast.Stmt, k trK) trLines {
 		if len(x.Results) == 1 && c.nresults > 1 {
 			trFail(x.Pos(), "return of a multi-valued call is outside the subset")
 		}
-		for _, r := range x.Results {
-			vals = append(vals, c.expr(r))
+		for i, r := range x.Results {
+			vals = append(vals, c.exprAs(r, c.resultTypes[i]))
 		}
 		pre := c.takePre()
 		return trWrapPre(pre, c.returnTerm(vals, x.Pos()))
@@ -502,6 +528,30 @@ func (c *trCtx) storeTerm(lhs ast.Expr, val string, pos token.Pos) (name, typ, t
 		return c.storeTerm(l.X, inner, pos)
 	case *ast.IndexExpr:
 		tx := c.typeOf(l.X)
+		// idiom: dict.GetDefault(m, k, ctor)[k2] = v  — the inner map of m at k (created by ctor() when absent) gets k2 ↦ v
+		// and is (still) the entry of m at k: maps are references in Go, the association lists are values
+		if call, ok := trUnparen(l.X).(*ast.CallExpr); ok {
+			if fo := c.calledFunc(call); fo != nil && fo.FullName() == trKnutPath+"lib/common/dict.GetDefault" {
+				c.t.checkPinned(fo, pos)
+				if _, isMap := tx.Underlying().(*types.Map); !isMap {
+					trFail(pos, "dict.GetDefault(…)[k] = v with a value type that is not a map is outside the subset")
+				}
+				m, k := c.expr(call.Args[0]), c.expr(call.Args[1])
+				ctorID, ok := trUnparen(call.Args[2]).(*ast.Ident)
+				if !ok {
+					trFail(pos, "dict.GetDefault with a constructor that is not a function name is outside the subset")
+				}
+				ctorF, _ := c.info().Uses[ctorID].(*types.Func)
+				tf := c.t.funcs[ctorF]
+				if tf == nil || tf.effect || len(tf.mut) > 0 {
+					trFail(pos, "dict.GetDefault: the constructor %s is not a translated pure function", ctorID.Name)
+				}
+				c.fn.deps = append(c.fn.deps, tf)
+				ctor := c.t.qname(c.unit(), tf.unit, tf.leanName)
+				inner := "(AMap.set (getDefault " + m + " " + k + " " + ctor + ") " + c.expr(l.Index) + " " + val + ")"
+				return c.storeTerm(call.Args[0], "(AMap.set "+m+" "+k+" "+inner+")", pos)
+			}
+		}
 		switch tx.Underlying().(type) {
 		case *types.Map:
 			inner := "(AMap.set " + c.expr(l.X) + " " + c.expr(l.Index) + " " + val + ")"
@@ -557,7 +607,12 @@ func (c *trCtx) assign(x *ast.AssignStmt, k trK) trLines {
 				return c.mutCall(call, tf, recv, x.Lhs, x.Tok == token.DEFINE, k)
 			}
 		}
-		val := c.expr(x.Rhs[0])
+		var val string
+		if x.Tok == token.ASSIGN {
+			val = c.exprAs(x.Rhs[0], c.typeOf(x.Lhs[0]))
+		} else {
+			val = c.expr(x.Rhs[0])
+		}
 		if x.Tok == token.DEFINE {
 			c.declare(x.Lhs[0])
 		}
